@@ -1832,6 +1832,59 @@ def orth_init_rule(ctx):
 # ---------------------------------------------------------------------------------------
 
 
+def ld_clamp_rule(ctx):
+    """LD-SATURATE.  A direction of an element-wise transform whose returned outputs are `clamp(g(inputs), lo, hi)`
+    (or clip / minimum / maximum against a constant) is constant wherever the clamp acts: its Jacobian is zero
+    there, the map is no longer one-to-one, and a log-abs-det computed from g alone reports a finite number for
+    a region that is collapsed onto a point (C01: the reported log-det is not the log-derivative of the computed
+    map; C03: the mass of that region is counted although it is mapped onto a set of measure zero).  Clamping
+    the *inputs* of a restricted-domain inverse before the logarithms (Sigmoid.inverse) is a different
+    construct and is DOM-CLAMP's."""
+    from ..symexp import paths_of
+
+    p = ctx.p
+    res = RuleResult("LD-SATURATE", "no direction of a transform returns outputs that are a clamp / clip / constant min-max of an input-dependent value while its log-abs-det is computed without that saturation")
+    n = 0
+    for cls in transform_classes(p):
+        for mname in ("forward", "inverse"):
+            fi = cls.methods.get(mname)
+            if fi is None:
+                continue
+            params = [a for a, _ in fi.params()]
+            if not params:
+                continue
+            x = params[0]
+            try:
+                paths = paths_of(fi.node, {"self.training": False})
+            except AnalysisIncomplete:
+                continue
+            for path in paths:
+                if path.kind != "return" or not (isinstance(path.ret, ast.Tuple) and len(path.ret.elts) == 2):
+                    continue
+                out, ld = path.ret.elts
+                n += 1
+                c = out
+                if not isinstance(c, ast.Call):
+                    continue
+                last = _last(c)
+                if last not in ("clamp", "clip", "clamp_min", "clamp_max", "minimum", "maximum", "hardtanh"):
+                    continue
+                is_mod = isinstance(c.func, ast.Attribute) and isinstance(c.func.value, ast.Name) and c.func.value.id in ("torch", "F")
+                inner = c.args[0] if is_mod and c.args else (c.func.value if isinstance(c.func, ast.Attribute) else None)
+                bounds = (c.args[1:] if is_mod else c.args) + [k.value for k in c.keywords]
+                if inner is None or not any(isinstance(q, ast.Name) and q.id == x for q in ast.walk(inner)):
+                    continue
+                if any(isinstance(q, ast.Name) and q.id == x for b in bounds for q in ast.walk(b)):
+                    continue  # a bound that follows the inputs is not a saturation
+                if any(isinstance(q, ast.Call) and _last(q) in ("clamp", "clip", "clamp_min", "clamp_max", "where", "masked_fill") for q in ast.walk(ld)):
+                    continue  # the log-det has a case distinction of its own: not judged here
+                res.fail(Finding("LD-SATURATE", fi.module, fi.qualname, path.ret_node, "%s.%s returns `%s`: beyond the bounds the computed map is constant (zero derivative, not one-to-one), but the log-abs-det `%s` is that of the unsaturated function -- a finite log-det is reported where the true one is -inf, and a flow built on it assigns mass to a region that is mapped onto a single point" % (cls.name, mname, norm_text(out)[:70], norm_text(ld)[:60]), construct="saturated outputs of %s.%s" % (cls.name, mname)))
+    if n < 25:
+        raise AnalysisIncomplete("LD-SATURATE: %d returning paths examined (< 25)" % n)
+    res.ok("%d returning paths of transform directions: no saturated outputs with an unsaturated log-det" % n, nontrivial=False)
+    return res
+
+
 def ld_orth_rule(ctx):
     """LD-ORTH = ORTH-REV (shared with C11): HouseholderSequence reports a zero log-det, which is right only
     while every step is the orthogonal reflection x - 2 (x.q) q / |q|^2 with one and the same q."""
